@@ -14,10 +14,10 @@ for n, f in F.fns.items():
         for p in ps:
             print("  PATH", p.trace[:30])
             for a in p.atoms:
-                print("     atom", a[0], fmt(a[1])[:110], a[2])
+                print("     atom#%d" % a[4], a[0], fmt(a[1])[:110], a[2])
             for e in p.events:
                 if not e.log:
-                    print("     call", e.callee[-60:], [fmt(x)[:50] for x in e.args], "@%s:%d" % (e.fn.name.split("::")[-1], e.bb))
+                    print("     call#%d" % e.seq, e.callee[-60:], [fmt(x)[:50] for x in e.args], "@%s:%d" % (e.fn.name.split("::")[-1], e.bb))
             for tg, v, w in p.stores:
                 print("     store", fmt(tg)[:60], ":=", fmt(v)[:80])
             print("     ret ", fmt(p.ret)[:150])
